@@ -226,7 +226,7 @@ def make_fetcher(kind, fail_at):
 FETCH_KINDS = ['exception', 'oserror', 'boom', 'garbage', 'badbytes', 'badtuple']
 OPS = ['parse-malformed', 'parse-malformed', 'parse-bytes-bad', 'parse-bytes-bad-enc', 'parse-fetch-fault', 'parse-fetch-fault', 'parsefile-missing', 'parseurl-fault', 'parser-raising',
        'parser-raising', 'parsestyle-bad', 'parsestyle-bytes', 'csscombine-fault', 'csscombine-ok', 'resolve-fault', 'replaceurls-fault', 'dom-reject', 'dom-reject', 'direct-objects',
-       'dom-mutator', 'dom-mutator', 'dom-mutator', 'restricted-profiles-roundtrip', 'serialise-weird', 'prefs-roundtrip', 'serializer-roundtrip', 'profile-roundtrip', 'validate-some', 'reuse-parser', 'reuse-parser', 'flip-mode', 'geturls', 'parse-ok', 'log-level']  # fmt: skip
+       'dom-mutator', 'dom-mutator', 'dom-mutator', 'restricted-profiles-roundtrip', 'parse-reentrant', 'parse-reentrant', 'serialise-weird', 'prefs-roundtrip', 'serializer-roundtrip', 'profile-roundtrip', 'validate-some', 'reuse-parser', 'reuse-parser', 'flip-mode', 'geturls', 'parse-ok', 'log-level']  # fmt: skip
 
 
 class History:
@@ -294,6 +294,21 @@ class History:
             f = make_fetcher(r.choice(FETCH_KINDS), r.randint(1, 3))
             p = c.CSSParser(fetcher=f, raiseExceptions=r.random() < 0.3)
             out = self.sentinel_call(kind, lambda: p.parseString('@import "a.css";@import "b.css";x{top:0}', href='http://h/s.css'))
+        elif kind == 'parse-reentrant':
+            # the same parser object re-entered while it parses: its fetcher looks at the imported text with the parser itself
+            p = c.CSSParser(raiseExceptions=r.random() < 0.4)
+            fail = r.random() < 0.3
+
+            def fetcher(url, p=p, fail=fail):
+                text = '@import "deeper.css";i{top:0}' if url.endswith('a.css') else 'j{left:0}'
+                try:
+                    p.parseString(text + (' zz|k{' if fail else ''))
+                except Exception:
+                    pass
+                return None, text
+
+            p.setFetcher(fetcher)
+            out = self.sentinel_call(kind, lambda: p.parseString('@import "a.css";x{top:0}', href='http://h/s.css').cssText)
         elif kind == 'parsefile-missing':
             ctx.count('faults.injected')
             out = self.sentinel_call(kind, lambda: c.parseFile('/nonexistent/dir/%d.css' % r.randrange(99)))
